@@ -212,6 +212,7 @@ type Explorer struct {
 	maxDepth int
 	cut      bool
 	frameSeq int
+	validatorMode bool // inline nested Validate()/ValidateBasic() methods (validator exploration)
 	curTag   string
 	Stats    struct{ Paths, Forks, Inlined, Steps int }
 }
@@ -539,6 +540,14 @@ func (x *Explorer) branch(fr *Frame, b *ssa.BasicBlock, ins *ssa.If, st *State, 
 			} else {
 				st.errs[id] = 2
 				st2.errs[id] = 1
+			}
+			// a validation helper that succeeded is a fact about its argument
+			if strings.Contains(c.Aux, "(") && !strings.HasPrefix(c.Aux, "orm:") {
+				if st.errs[id] == 1 {
+					st.assume("Ok("+c.Aux+")", true)
+				} else {
+					st2.assume("Ok("+c.Aux+")", true)
+				}
 			}
 			take(0, st, fr)
 			take(1, st2, fr2)
@@ -1146,6 +1155,9 @@ func (x *Explorer) binop(fr *Frame, st *State, ins *ssa.BinOp) Val {
 		if c, ok := b.(*CmpV); ok {
 			return cmpFact(c, op, a)
 		}
+		if c, ok := a.(*TCmpV); ok {
+			return tcmpFact(c, op, b)
+		}
 		ka, okA := a.(*KConst)
 		kb, okB := b.(*KConst)
 		if okA && okB {
@@ -1175,6 +1187,9 @@ func (x *Explorer) binop(fr *Frame, st *State, ins *ssa.BinOp) Val {
 		}
 		return &BoolV{F: kind + sa + ", " + sb + ")", Neg: neg}
 	case token.LSS, token.GTR, token.LEQ, token.GEQ:
+		if c, ok := a.(*TCmpV); ok {
+			return tcmpFact(c, op, b)
+		}
 		if c, ok := a.(*CmpV); ok {
 			return cmpFact(c, op, b)
 		}
@@ -1210,7 +1225,7 @@ func isK(v Val, s string) bool {
 
 func (x *Explorer) errCompare(st *State, e *ErrV, other Val, neg bool) Val {
 	if isK(other, "nil") {
-		return &BoolV{F: fmt.Sprintf("ErrNil(%d)", e.ID), Neg: neg}
+		return &BoolV{F: fmt.Sprintf("ErrNil(%d)", e.ID), Neg: neg, Aux: e.Origin}
 	}
 	// comparison with a sentinel (ormerrors.NotFound, …)
 	name := vstr(other)
@@ -1320,4 +1335,47 @@ func sortedFacts(st *State) []string {
 	out := append([]string(nil), st.facts...)
 	sort.Strings(out)
 	return out
+}
+
+// tcmpFact turns `a.Compare(b) <op> const` on times into an ordering fact.
+func tcmpFact(c *TCmpV, op token.Token, other Val) Val {
+	k, ok := other.(*KConst)
+	if !ok {
+		return &BoolV{F: "Cond(" + c.vs() + op.String() + vstr(other) + ")"}
+	}
+	lt, gt := "TimeLt("+c.A+", "+c.B+")", "TimeLt("+c.B+", "+c.A+")"
+	x, y := sortedPair(c.A, c.B)
+	eq := "TimeEq(" + x + ", " + y + ")"
+	switch k.S {
+	case "1":
+		switch op {
+		case token.EQL, token.GEQ:
+			return &BoolV{F: gt}
+		case token.NEQ, token.LSS:
+			return &BoolV{F: gt, Neg: true}
+		}
+	case "-1":
+		switch op {
+		case token.EQL, token.LEQ:
+			return &BoolV{F: lt}
+		case token.NEQ, token.GTR:
+			return &BoolV{F: lt, Neg: true}
+		}
+	case "0":
+		switch op {
+		case token.EQL:
+			return &BoolV{F: eq}
+		case token.NEQ:
+			return &BoolV{F: eq, Neg: true}
+		case token.GTR:
+			return &BoolV{F: gt}
+		case token.LSS:
+			return &BoolV{F: lt}
+		case token.GEQ:
+			return &BoolV{F: lt, Neg: true}
+		case token.LEQ:
+			return &BoolV{F: gt, Neg: true}
+		}
+	}
+	return &BoolV{F: "Cond(" + c.vs() + op.String() + k.S + ")"}
 }
